@@ -1,6 +1,6 @@
 //! Engine `pager` (C11) — judge mode.
 //!
-//! Two case kinds; `exec` returns an *observation* of the real code, the Lean driver judges it.
+//! Two case kinds (and one regression probe); `exec` returns an *observation* of the real code, the Lean driver judges it.
 //!
 //! 1. Allocator sequences on a raw pager (`Pager::allocate_page` / `dealloc_page` through `axmosdb::verif::pager::VPager`):
 //!      seq <pagesize> <cache> | op ; op ; …
@@ -33,10 +33,14 @@
 //!      N=<root,…>: the roots of the trees with numeric keys; K<id>:<k1>,<k2>,… the keys of all cells of page <id> of such a tree
 //!      (`K<id>:!` = the page has no numeric keys any more): the judge also runs C10's `checkTree` on these trees.
 //!    The judge runs `checkOwnership` on every step and the reuse-before-growth rule on consecutive steps.
+//!
+//! 3. `iter <pagesize>`: a leaf in the middle of a tree is freed behind the tree's back and the tree is iterated;
+//!    observation `obs oks=<n> then=<a>,<b>,<c>` = positions before the first error and what the next three `next()` calls
+//!    return. Admissible iff the iterator ends after the error (`then=none,none,none`).
 use super::{Case, Engine, Tier};
 use crate::rng::Rng;
 use axmosdb::verif::btree::{DumpCache, FileDump, KeyKind, PageBody, dump_file_cached};
-use axmosdb::verif::pager::{PKind, VPager, database_roots};
+use axmosdb::verif::pager::{PKind, VPager, database_roots, iterator_after_error};
 use axmosdb::{DBConfig, Database};
 use std::collections::{BTreeMap, VecDeque};
 use std::sync::atomic::{AtomicU64, Ordering as AtomicOrdering};
@@ -1112,6 +1116,18 @@ impl Engine for PagerEngine {
             exec_seq(line)
         } else if line.starts_with("sql ") {
             exec_sql(line)
+        } else if let Some(ps) = line.strip_prefix("iter ") {
+            // regression check of KF-C11-iterator-repeats-error: the iterator must end after it has reported an error
+            match ps.parse::<usize>() {
+                Ok(ps) if ps == 4096 || ps == 8192 => {
+                    let scratch = Scratch::new();
+                    match guard(|| iterator_after_error(&scratch.0, ps)) {
+                        Ok(s) => format!("obs {}", s),
+                        Err(e) => format!("obs E{}", e),
+                    }
+                }
+                _ => "bad-op".into(),
+            }
         } else {
             "bad-op".into()
         }
@@ -1136,6 +1152,8 @@ impl Engine for PagerEngine {
             let t: Vec<&str> = tags.iter().map(|s| s.as_str()).collect();
             out.push(Case::new(line, &t));
         }
+        out.push(Case::new("iter 4096".into(), &["iter", "nt"]));
+        out.push(Case::new("iter 8192".into(), &["iter", "nt"]));
         let mut r2 = rng.fork("sql");
         let families = ["plain", "rollback", "ddl", "reopen", "churn", "mixed", "ovf"];
         for i in 0..n_sql {
